@@ -94,6 +94,11 @@ def ini_for(d, conf):
         # stdin_socket: the worker gets that socket as its standard input -- and nothing else of the daemon's
         txt += ('[watcher:sin]\ncmd = %s\nnumprocesses = 1\ngraceful_timeout = 1\ncopy_env = True\nstdin_socket = %s\n\n'
                 % (live.worker_cmd({'log': '@LOG@', 'dump': True, 'tagw': 'sin'}), conf['sockets'][0]['name']))
+        # ... and an inetd-style worker that is also told the descriptor number of that same socket
+        txt += ('[watcher:sinu]\ncmd = %s --fd $(circus.sockets.%s)\nnumprocesses = 1\ngraceful_timeout = 1\ncopy_env = True\n'
+                'use_sockets = True\nstdin_socket = %s\n\n'
+                % (live.worker_cmd({'log': '@LOG@', 'dump': True, 'tagw': 'sinu'}), conf['sockets'][0]['name'],
+                   conf['sockets'][0]['name']))
     return txt
 
 
@@ -160,7 +165,7 @@ def wait_dumps(d, pids, timeout=10.0):
 
 def _case(d, conf, actions, rnd, res):
     d.start()
-    total = sum(w['np'] for w in conf['watchers']) + 1 + (1 if conf.get('stdin_watcher') else 0)
+    total = sum(w['np'] for w in conf['watchers']) + 1 + (2 if conf.get('stdin_watcher') else 0)
     if conf.get('stale_unix'):
         t_end = time.time() + 10
         while time.time() < t_end and d.proc.poll() is None and not os.path.exists(os.path.join(d.dir, 'ctl')):
@@ -207,8 +212,11 @@ def _case(d, conf, actions, rnd, res):
 
     def inspect(gen_label):
         new = 0
-        for w in conf['watchers'] + [{'name': 'plain', 'sock': None}] + ([{'name': 'sin', 'sock': None}]
-                                                                          if conf.get('stdin_watcher') else []):
+        s0 = conf['sockets'][0]['name']
+        for w in conf['watchers'] + [{'name': 'plain', 'sock': None}] + (
+                [{'name': 'sin', 'sock': None},
+                 {'name': 'sinu', 'sock': s0, 'ref': '$(circus.sockets.%s)' % s0, 'stdin': True}]
+                if conf.get('stdin_watcher') else []):
             r = d.call('list', name=w['name'])
             pids = r.get('pids', [])
             dumps = wait_dumps(d, [p for p in pids if p not in inspected])
@@ -225,6 +233,13 @@ def _case(d, conf, actions, rnd, res):
                                       'use_sockets holds %s (%s)' % (p, socks, gen_label))
                     continue
                 argv = dump['argv']
+                if w.get('stdin') and not managed[w['sock']]['conf'].get('reuseport'):
+                    t0_ = fds.get('0')
+                    res.obs['stdin_socket_checks'] += 1
+                    if t0_ is None or t0_ != 'socket:[%s]' % managed[w['sock']]['inode']:
+                        res.violation('C07/stdin-is-not-the-daemons-socket', 'worker %d of the stdin_socket watcher has %r as '
+                                      'standard input, the daemon bound inode %s (%s)'
+                                      % (p, t0_, managed[w['sock']]['inode'], gen_label))
                 for flag, sockname, ref in (('--fd', w['sock'], w['ref']), ('--fd2', w.get('sock2'), w.get('ref2'))):
                     if sockname is None:
                         continue
